@@ -30,7 +30,7 @@ SIG = {
     'ccm_flags': 'int[nat]', 'ccm_b0': 'bytes', 'ccm_hdr': 'bytes', 'ccm_hdr_len': 'int[nat]', 'ccm_ctr0': 'bytes',
     'ccm_s0': 'bytes', 'ccm_fmt': 'bytes', 'ccm_tag': 'bytes', 'ccm_crypt': 'bytes', 'zpad': 'bytes', 'up16': 'int[nat]',
     'pow256': 'int[nat]', 'cat': 'bytes', 'ccm_a_start': 'int[nat]', 'ccm_a_end': 'int[nat]', 'ccm_p_start': 'int[nat]',
-    's2v_dbl': 'bytes', 's2v_final': 'bytes', 'siv_ctr0': 'bytes',
+    's2v_dbl': 'bytes', 's2v_pad': 'bytes', 's2v_final': 'bytes', 's2v_step': 'bytes', 'siv_v': 'bytes', 'siv_ctr0': 'bytes', 'siv_crypt': 'bytes',
     'kw_step': 'bytes', 'kw_unstep': 'bytes',
     'ocb_nonce': 'bytes', 'ocb_ktop_in': 'bytes', 'ocb_offset0': 'bytes', 'ocb_stretch': 'bytes',
 }
@@ -98,6 +98,8 @@ def pow256(k):
         return 72057594037927936
     if k == 8:
         return 18446744073709551616
+    if k == 16:
+        return 340282366920938463463374607431768211456
     return pow2(8 * k)
 
 
@@ -187,3 +189,49 @@ def ccm_a_end(alen):
 def ccm_p_start(alen):
     """offset in the formatted MAC input where the payload starts"""
     return up16(16 + ccm_hdr_len(alen) + alen)
+
+
+# ------------------------------------------------------------------------------------------------ S2V and SIV, RFC 5297
+
+def s2v_dbl(b):
+    """2.3 dbl(S): the 128-bit string shifted left by one bit; if the bit shifted out was 1, xor 0^120 10000111 into it"""
+    d = 2 * be(b)
+    if b[0] >= 128:
+        d = d ^ 135
+    return i2osp(d % 340282366920938463463374607431768211456, len(b))
+
+
+def s2v_pad(x):
+    """2.1 pad(X) = X || 1 || 0^(127 - len(X)) for len(X) < 128 bits"""
+    return (x + b'\x80' + bytes(15))[:16]
+
+
+def s2v_step(key, d, last):
+    """2.4, loop body: D = dbl(D) xor AES-CMAC(K, Si)"""
+    return xor(s2v_dbl(d), cmac(key, last))
+
+
+def s2v_final(d, last):
+    """2.4: T = Sn xorend D when len(Sn) >= 128 bits, else dbl(D) xor pad(Sn)   (the string handed to the final AES-CMAC)"""
+    if len(last) >= 16:
+        return last[:len(last) - 16] + xor(last[len(last) - 16:], d)
+    return xor(s2v_pad(last), s2v_dbl(d))
+
+
+def siv_v(key, d, last, nonce, plain):
+    """2.6/2.7: V = S2V(K1; AD_1, ..., AD_n [, nonce], P) where (d, last) is the S2V state after AD_1 .. AD_n
+    (d = D before the last component was absorbed, last = that component); nonce is None for deterministic use"""
+    if nonce is not None:
+        d = s2v_step(key, d, last)
+        last = nonce
+    return cmac(key, s2v_final(s2v_step(key, d, last), plain))
+
+
+def siv_ctr0(v):
+    """2.6: Q = V bitand (1^64 || 0 || 1^31 || 0 || 1^31): the initial counter block"""
+    return i2osp(be(v) & 0xFFFFFFFFFFFFFFFF7FFFFFFF7FFFFFFF, 16)
+
+
+def siv_crypt(key2, v, data):
+    """2.6/2.7: data xor the CTR key stream of K2 started at Q"""
+    return xor(data, ctr_ks(key2, siv_ctr0(v), 0, len(data)))
